@@ -329,6 +329,10 @@ class GroupDomain(RingDomain):
         elif n == "endomorphism":
             # G1::endomorphism acts as multiplication by lambda on the order-r subgroup (beta^3 = 1, CM theory: trusted; constants: CONST)
             this.val = G(0).scale(self.consts.value("g1_endomorphism_lambda"))
+        elif n == "frobenius_map" and t == GT_T:
+            # on GT (order r) the q-power Frobenius is exponentiation by q = x (mod r)  (trusted; q = x mod r by construction of q)
+            from bvspec import X as BLS_X
+            this.val = G(0).scale(BLS_X ** I.rv(args[1]))
         elif n == "frobenius_map" and t in (G2_T, G2A_T):
             # the twisted Frobenius acts on G2 as multiplication by q = x (mod r)  (trusted; q = x mod r by construction of q)
             from bvspec import X as BLS_X
